@@ -24,13 +24,14 @@ import (
 )
 
 type epSpec struct {
-	kind      string // custom tcps udps tcpc udpc serial
-	peers     int    // server kinds: peers that connect and talk
-	gate      bool   // custom/serial: transport blocks writes
-	refused   bool   // client kinds: nothing listens on the address
-	frames    int    // frames fed per transport
-	peerGoes  bool   // server kinds: first peer disconnects shortly before the close
-	readFault bool   // serial with a gated transport: the read side fails shortly before Close while the writer is blocked
+	kind       string // custom tcps udps tcpc udpc serial
+	peers      int    // server kinds: peers that connect and talk
+	gate       bool   // custom/serial: transport blocks writes
+	refused    bool   // client kinds: nothing listens on the address
+	unanswered bool   // tcpc: the peer does not answer connection attempts at all (they stay pending until their time budget ends)
+	frames     int    // frames fed per transport
+	peerGoes   bool   // server kinds: first peer disconnects shortly before the close
+	readFault  bool   // serial with a gated transport: the read side fails shortly before Close while the writer is blocked
 	// custom: the transport's Read fails shortly before Close (once, or from then on); the node must still close it exactly once
 	customFault string
 	lateOpen    bool // serial: the device open that follows initialization completes only after Close has begun
@@ -56,7 +57,8 @@ type c12World struct {
 	shortRetry  bool
 	writeTO     time.Duration
 	hbPeriod    time.Duration
-	apHB        bool // traffic includes ArduPilot heartbeats from fresh senders: stream requests and their events are in flight
+	readTO      time.Duration // 0 = the node's default
+	apHB        bool          // traffic includes ArduPilot heartbeats from fresh senders: stream requests and their events are in flight
 }
 
 // trafficFrame is the k-th frame a transport delivers: a DEBUG message, or (every third frame when apHB is set) an
@@ -74,9 +76,9 @@ func (w *c12World) trafficFrame(tag byte, k int) []byte {
 
 func (w *c12World) describe() string {
 	var b strings.Builder
-	fmt.Fprintf(&b, "consumer=%s pauseAfter=%d closeAfter=%v closeOnParkedWriter=%v writers=%d heartbeat=%v(period %v) shortReconnect=%v arduPilotHeartbeatsInTraffic=%v\n", w.consumer, w.pauseAfter, w.closeAfter, w.closeOnPark, w.writers, w.heartbeat, w.hbPeriod, w.shortRetry, w.apHB)
+	fmt.Fprintf(&b, "consumer=%s pauseAfter=%d closeAfter=%v closeOnParkedWriter=%v writers=%d heartbeat=%v(period %v) shortReconnect=%v readTimeout=%v arduPilotHeartbeatsInTraffic=%v\n", w.consumer, w.pauseAfter, w.closeAfter, w.closeOnPark, w.writers, w.heartbeat, w.hbPeriod, w.shortRetry, w.readTO, w.apHB)
 	for i, e := range w.eps {
-		fmt.Fprintf(&b, " endpoint %d: %s peers=%d gate=%v refused=%v frames=%d peerDisconnects=%v openCompletesDuringClose=%v readFaultWithBlockedWriter=%v customReadFault=%q\n", i, e.kind, e.peers, e.gate, e.refused, e.frames, e.peerGoes, e.lateOpen, e.readFault, e.customFault)
+		fmt.Fprintf(&b, " endpoint %d: %s peers=%d gate=%v refused=%v unanswered=%v frames=%d peerDisconnects=%v openCompletesDuringClose=%v readFaultWithBlockedWriter=%v customReadFault=%q\n", i, e.kind, e.peers, e.gate, e.refused, e.unanswered, e.frames, e.peerGoes, e.lateOpen, e.readFault, e.customFault)
 	}
 	return b.String()
 }
@@ -120,7 +122,7 @@ func init() {
 
 func TestC12Close(t *testing.T) {
 	rec := evid.New(t, "C12", "generated node configurations (custom, TCP/UDP server with peers, TCP/UDP client against a live or refusing address, serial through the hook) with traffic, gated (blocked) transports, a consumer that is absent, running or paused, concurrent Write* callers and a generated close point (immediately, after a delay, once a writer is parked in the transport); Close must return within a bound far above normal (on a miss two goroutine dumps prove the deadlock), afterwards no goroutine started by the library is alive, every listening port can be bound again, accepted connections are closed, each custom transport was closed exactly once, Events() is closed, and racing/following Write* calls return; non-trivial = close while a goroutine is known to be blocked (parked writer, paused/absent consumer with pending events, client in back-off); distinct by hash of the scenario")
-	rec.Require("blocked-writer", "no-consumer", "paused-consumer", "client-backoff", "open-completes-during-close", "reader-failed-while-writer-blocked", "racing-writers", "tcps", "udps", "tcpc", "udpc", "serial", "custom", "bcast", "stream-request-event-undelivered", "custom-transport-read-failed-before-close")
+	rec.Require("blocked-writer", "no-consumer", "paused-consumer", "client-backoff", "open-completes-during-close", "reader-failed-while-writer-blocked", "racing-writers", "tcps", "udps", "tcpc", "udpc", "serial", "custom", "bcast", "stream-request-event-undelivered", "custom-transport-read-failed-before-close", "client-attempt-unanswered")
 	evid.Check(t, rec, evid.N(250, 700), func(t *rapid.T) {
 		drawNodeInit(t)
 		w := &c12World{}
@@ -130,6 +132,7 @@ func TestC12Close(t *testing.T) {
 			e.peers = rapid.IntRange(0, 2).Draw(t, "peers")
 			e.gate = rapid.IntRange(0, 2).Draw(t, "gate") == 0 || (e.kind == "serial" && rapid.Bool().Draw(t, "gate_serial"))
 			e.refused = rapid.Bool().Draw(t, "refused")
+			e.unanswered = e.kind == "tcpc" && rapid.IntRange(0, 2).Draw(t, "unanswered") == 0
 			e.frames = rapid.IntRange(0, 20).Draw(t, "frames")
 			e.peerGoes = rapid.IntRange(0, 3).Draw(t, "peer_goes") == 0
 			e.lateOpen = e.kind == "serial" && rapid.IntRange(0, 2).Draw(t, "late_open") == 0
@@ -148,6 +151,7 @@ func TestC12Close(t *testing.T) {
 		// from "a tick is almost always being handed over" to "rare ticks"
 		w.hbPeriod = time.Duration(rapid.SampledFrom([]int{1, 5, 20, 100, 500, 2000}).Draw(t, "hb_period_us")) * time.Microsecond
 		w.shortRetry = rapid.IntRange(0, 3).Draw(t, "short_retry") > 0
+		w.readTO = time.Duration(rapid.SampledFrom([]int{0, 0, 300, 1000, 1500}).Draw(t, "read_timeout_ms")) * time.Millisecond
 		w.apHB = rapid.Bool().Draw(t, "ardupilot_heartbeats")
 		var blocked []string
 		err := watchdog(scenarioLimit, func() error {
@@ -247,7 +251,13 @@ func runC12(w *c12World) ([]string, error) {
 			endpoints = append(endpoints, gomavlib.EndpointUDPServer{Address: sim.Addr(e.port)})
 		case "tcpc":
 			e.port = sim.FreePort()
-			if !e.refused {
+			if e.unanswered {
+				_, release, err := hangingListener(e.port)
+				if err != nil {
+					return nil, err
+				}
+				cleanup = append(cleanup, release)
+			} else if !e.refused {
 				l, err := net.Listen("tcp4", sim.Addr(e.port))
 				if err != nil {
 					return nil, fmt.Errorf("BROKEN: listen: %v", err)
@@ -291,7 +301,7 @@ func runC12(w *c12World) ([]string, error) {
 	}
 	n := &gomavlib.Node{Endpoints: endpoints, Dialect: ardupilotmega.Dialect, OutVersion: gomavlib.V2, OutSystemID: 7,
 		HeartbeatDisable: !w.heartbeat, HeartbeatPeriod: w.hbPeriod, WriteTimeout: 300 * time.Millisecond,
-		StreamRequestEnable: true}
+		StreamRequestEnable: true, ReadTimeout: w.readTO}
 	if err := initNode(&n); err != nil {
 		return nil, fmt.Errorf("BROKEN: node init: %v", err)
 	}
@@ -412,7 +422,9 @@ func runC12(w *c12World) ([]string, error) {
 		blocked = append(blocked, "paused-consumer")
 	}
 	for _, e := range w.eps {
-		if (e.kind == "tcpc") && e.refused {
+		if (e.kind == "tcpc") && e.unanswered {
+			blocked = append(blocked, "client-attempt-unanswered")
+		} else if (e.kind == "tcpc") && e.refused {
 			blocked = append(blocked, "client-backoff")
 		}
 	}
@@ -571,7 +583,7 @@ func TestC12InitFailure(t *testing.T) {
 		var pipes []*sim.Pipe
 		var desc []string
 		for i := 0; i < ngood; i++ {
-			k := rapid.SampledFrom([]string{"custom", "tcps", "udps", "tcpc", "udpc"}).Draw(t, "good")
+			k := rapid.SampledFrom([]string{"custom", "tcps", "udps", "tcpc", "udpc", "bcast", "bcast"}).Draw(t, "good")
 			desc = append(desc, k)
 			switch k {
 			case "custom":
@@ -586,6 +598,10 @@ func TestC12InitFailure(t *testing.T) {
 				port := sim.FreePort()
 				ports = append(ports, port)
 				endpoints = append(endpoints, gomavlib.EndpointUDPServer{Address: sim.Addr(port)})
+			case "bcast":
+				port := sim.FreePort()
+				ports = append(ports, port)
+				endpoints = append(endpoints, gomavlib.EndpointUDPBroadcast{BroadcastAddress: fmt.Sprintf("127.255.255.255:%d", sim.FreePort()), LocalAddress: sim.Addr(port)})
 			case "tcpc":
 				endpoints = append(endpoints, gomavlib.EndpointTCPClient{Address: sim.Addr(sim.FreePort())})
 			case "udpc":
